@@ -353,6 +353,22 @@ def run(ctx: Ctx, tier: str) -> Result:
         res.ok("C05.BUDGET", {"exhausted budget -> consumer returns False": sf.loc(stop_ret[0])})
     else:
         res.fail(Finding("C05.BUDGET", sf.qname, stmt, sf.loc(stmt), "an exhausted budget does not make the search consumer return False"))
+    # ... and nothing else does: a falsy answer ends the whole search, so every other way out of the consumer answers True (a
+    # path that falls off the end - None - or answers False for a value seen before drops everything still queued)
+    stop_ids = {id(r_) for r_ in stop_ret}
+    sft = Table(ctx, sf)
+    for r_ in sft.rows:
+        if r_.kind == "return" and id(r_.node) in stop_ids:
+            continue
+        falsy = r_.kind == "fall" or (r_.kind == "return" and isinstance(r_.result, ast.Constant) and not r_.result.value)
+        if falsy:
+            res.fail(Finding("C05.BUDGET", sf.qname, r_.node if isinstance(r_.node, ast.stmt) else "<end of %s>" % sf.name, sf.loc(r_.node) if isinstance(r_.node, ast.AST) else sf.loc(),
+                             "the search consumer answers %s on a path where the budget is not exhausted (%s): breadth_first_search takes that for `stop`, and every variable still "
+                             "queued - later locals, unexpanded containers - is dropped" % ("None (no return)" if r_.kind == "fall" else norm(r_.result), " and ".join(
+                                 ("" if pol else "not ") + norm(c_)[:40] for c_, pol in r_.conds)[:160] or "always")))
+            break
+    else:
+        res.ok("C05.BUDGET", {"only the exhausted budget ends the search": len(sft.rows)})
     bfs = p.func(BFS + ".breadth_first_search")
     cons = [c for c in t.calls_in(bfs) if isinstance(c.func, ast.Name) and c.func.id == bfs.params[1]]
     need(len(cons) == 1, "breadth_first_search: consumer call not found")
@@ -517,4 +533,6 @@ def run(ctx: Ctx, tier: str) -> Result:
             else:
                 res.ok("C05.DEPTH", {"search starts at depth 0": f_.qname})
     res.floor("breadth-first searches started", nroots, 1)
+    from .common import borrow
+    borrow(ctx, res, tier, "c02", ("C02.CHILD",), "C05.SEQ", "the children of a sequence are its first elements up to the limit, each once, under its own index")
     return res
